@@ -204,6 +204,13 @@ def gen_case(rng, family=None):
             for a in axn:
                 other = rng.choice(["left", "right", "outer", "inner"])
                 axes[a] = {"n": rng.randint(3, 4), "other": other}
+                if rng.random() < 0.4:
+                    # several shifted coordinates on one axis (three or four positions), sometimes two of them at
+                    # the same position: which dimension a position maps to must not depend on the hash seed
+                    more = rng.sample([p for p in ["left", "right", "outer", "inner"] if p != other], rng.choice([1, 1, 2]))
+                    axes[a]["others"] = [other] + more
+                    if rng.random() < 0.35:
+                        axes[a]["dup"] = rng.choice(axes[a]["others"])
             spec = {"kind": "parse", "conv": "comodo", "axes": axes, "fill": float(rng.randint(1, 5)),
                     "seed": rng.randrange(10**6)}
             if rng.random() < 0.25:
@@ -356,6 +363,15 @@ def _comodo_ds(spec):
             coords[o] = ((o,), np.arange(n + 1) * 1.0, {"axis": a, "c_grid_axis_shift": -0.5})
         else:
             coords[o] = ((o,), np.arange(n - 1) + 1.0, {"axis": a, "c_grid_axis_shift": -0.5})
+        suff = {"left": "g", "right": "r", "outer": "o", "inner": "i"}
+        for pos in (ax.get("others") or [])[1:] + ([ax["dup"] + "*"] if ax.get("dup") else []):
+            nm = a.lower() + (suff[pos[:-1]] + "q" if pos.endswith("*") else suff[pos])
+            pos = pos.rstrip("*")
+            if nm in coords:
+                nm += "2"
+            ln = {"left": n, "right": n, "outer": n + 1, "inner": n - 1}[pos]
+            first = {"left": 0.0, "right": 1.0, "outer": 0.0, "inner": 1.0}[pos]
+            coords[nm] = ((nm,), np.arange(ln) + first, {"axis": a, "c_grid_axis_shift": 0.5 if pos == "right" else -0.5})
         bad = (spec.get("malformed") or {}).get(a)
         if bad == "two_centers":
             coords[o] = ((o,), coords[o][1], {"axis": a})  # a second coordinate without shift
